@@ -168,7 +168,7 @@ func (t c16Type) genLit(r *gen.Rng) (c16Lit, []interface{}) {
 		case 1:
 			return litStr(gen.Pick(r, []string{"maybe", "True", ""})), pool
 		}
-		return litStr(gen.Pick(r, []string{"true", "false", "true", "false", "1", "0", "yes", "np"})), pool
+		return litStr(gen.Pick(r, []string{"true", "false", "true", "false", "1", "0", "yes", "no"})), pool
 	case "enum":
 		pool := []interface{}{"red", "green", "blue", "violet"}
 		switch r.Intn(8) {
